@@ -1,6 +1,8 @@
 (* C09 - direct inference, System P, rational monotony, (Bottom|A) only for unsatisfiable A. *)
 From InfOCF Require Import Core Tol PEnt Form Model Spec Pref Pref2 ThmPost CModel ThmPostInt.
 From InfOCFProps Require Import Ex.
+From InfOCF Require Import PyLib TieCons TieAnsP TieAnsZ TieAnsW TieAnsLex TieRel09.
+From Coq Require Import ZArith.
 
 (* REF, LLE, RW, SCL, AND, OR, CM, CUT, BOTTOM for every strict partial order on a finite world list *)
 Theorem C09_systemP_of_strict_order : forall Wl lt, (forall w, lt w w = false) ->
@@ -60,3 +62,27 @@ Print Assumptions C09_direct_inference_c.
 Example birds_direct : forallb (fun c => match Model.infer 4 SysZ false birds c with Ans b => b | Refuse => false end) birds = true
   /\ Model.infer 4 SysW false birds (mk 9 FBot (v 1)) = Ans false.
 Proof. vm_compute. split; reflexivity. Qed.
+
+(* SOURCE TIE.  On a strongly consistent base with distinct keys, the relation "the code GENERATED from /repo's sources on this
+   run answers True to (B|A)" (src_* of TieAns*.v) satisfies System P for p-entailment, System Z, System W and lexicographic
+   inference, and rational monotony for System Z and lexicographic inference. *)
+Theorem C09_source_system_z_systemP : forall n D, D <> [] -> forall P, part_strict n D = Some P ->
+  sysP_holds (worlds n) (fun A B => src_z n D false (mkq B A) true).
+Proof. exact src_z_sysP. Qed.
+Theorem C09_source_system_z_RM : forall n D, D <> [] -> forall P, part_strict n D = Some P ->
+  RM_holds (fun A B => src_z n D false (mkq B A) true).
+Proof. exact src_z_RM. Qed.
+Theorem C09_source_system_w_systemP : forall n D, NoDup (map kzc D) -> D <> [] -> forall P, part_strict n D = Some P ->
+  sysP_holds (worlds n) (fun A B => src_w n D false (mkq B A) true).
+Proof. exact src_w_sysP. Qed.
+Theorem C09_source_lex_systemP : forall n D, NoDup (map kzc D) -> D <> [] -> forall P, part_strict n D = Some P ->
+  sysP_holds (worlds n) (fun A B => src_lex n D false (mkq B A) true).
+Proof. exact src_lex_sysP. Qed.
+Theorem C09_source_lex_RM : forall n D, NoDup (map kzc D) -> D <> [] -> forall P, part_strict n D = Some P ->
+  RM_holds (fun A B => src_lex n D false (mkq B A) true).
+Proof. exact src_lex_RM. Qed.
+Theorem C09_source_p_entailment_systemP : forall n D, D <> [] -> forall P, part_strict n D = Some P ->
+  sysP_holds (worlds n) (fun A B => src_p n D false (mkq B A) true).
+Proof. exact src_p_sysP. Qed.
+Print Assumptions C09_source_system_z_systemP. Print Assumptions C09_source_system_z_RM. Print Assumptions C09_source_system_w_systemP.
+Print Assumptions C09_source_lex_systemP. Print Assumptions C09_source_lex_RM. Print Assumptions C09_source_p_entailment_systemP.
